@@ -259,7 +259,14 @@ func bashEquiv(r *Run, c *gosym.Ctx, sh Shape, o eqOpts) (out eqOutcome) {
 				}
 				mixed = B.And(mixed, B.Not(B.And(pure...)))
 			}
-			witnesses("mixed-classes", mixed)
+			// ... of which mixtures of layout characters only (blank, tab, newline) are a class of their own
+			var layout []*sym.Term
+			for _, d := range data {
+				layout = append(layout, inSet(d, " \t\n"+plainChars))
+			}
+			onlyLayout := B.And(layout...)
+			witnesses("whitespace-mix", B.And(mixed, onlyLayout))
+			witnesses("mixed-classes", B.And(mixed, B.Not(onlyLayout)))
 		}
 		more := out.More
 		out = first
